@@ -155,6 +155,15 @@ func init() {
 					front, n, strict, cons, obj = coveringProblem(r)
 					hasObj = true
 				}
+				if r.Intn(6) == 0 { // OPB text: the only route by which negative cost coefficients can be given
+					front, strict = "opb", false
+					n = 1 + r.Intn(5)
+					cons = nil
+					for j := 0; j < r.Intn(4); j++ {
+						cons = append(cons, opbCons(r, n, 3))
+					}
+					hasObj, obj = true, gen.RandObj(r, n, -3, 3)
+				}
 				cfg := gen.Cfg(false, 0, 0, false, false, true)
 				var ev []gen.M
 				switch r.Intn(3) {
@@ -197,10 +206,18 @@ func init() {
 			if !b(t, "hasObj") {
 				cov["obj.none"]++
 			}
+			if o, ok := t["obj"].(map[string]any); ok {
+				for _, w := range o["w"].([]any) {
+					if f, _ := w.(float64); f < 0 {
+						cov["obj.negative-coefficient"]++
+						break
+					}
+				}
+			}
 			return nt
 		},
 		Rule:    "cases: (constraint set, cost function) pairs, n<=6, clauses / cardinality / PB constraints, cost literals of either polarity with weights 0..3 (nil weights = all ones, no cost function), through Optimal(nil), Optimal(chan) and Minimize; non-trivial = the linear search strengthened the bound at least once",
-		Require: []string{"op.optimal", "op.minimize", "obj.nilweights", "obj.none", "stream.improvements", "reply.optimal.UNSAT"},
+		Require: []string{"op.optimal", "op.minimize", "obj.nilweights", "obj.none", "stream.improvements", "reply.optimal.UNSAT", "front.opb", "obj.negative-coefficient"},
 	})
 
 	// C05 — counting and enumeration
